@@ -22,6 +22,8 @@ type DB struct {
 	Commits int64
 	// FailNext makes the next n commits fail (rolled back, ErrInjected).
 	FailNext int
+	// FailAt, if > 0, makes exactly the commit with that number fail.
+	FailAt int64
 	// Hook, if set, is called with the commit number right before ("pre")
 	// and right after ("post") each commit. It runs in the caller's
 	// goroutine and must not block.
@@ -50,6 +52,9 @@ func (d *DB) Update(f func(tx walletdb.ReadWriteTx) error, reset func()) error {
 	fail := d.FailNext > 0
 	if fail {
 		d.FailNext--
+	}
+	if d.FailAt > 0 && k == d.FailAt {
+		fail = true
 	}
 	hook := d.Hook
 	txHook := d.TxHook
